@@ -5,6 +5,11 @@ pid, wt = sys.argv[1], sys.argv[2]
 n = sys.argv[3] if len(sys.argv) > 3 else "2"
 props = {json.loads(l)["id"]: json.loads(l) for l in open("/verif/properties.jsonl")}
 p = props[pid]
+import glob, os
+prev = []
+for mf in sorted(glob.glob(f"/verif/seeded/{pid}-*/meta.json")):
+    m = json.load(open(mf)); prev.append("  - " + (m.get("summary") or "")[:400])
+prev_text = ("\nOther people have ALREADY produced the following changes for this property; do NOT repeat them or trivial variations of them -\npick different code sites and different mechanisms:\n" + "\n".join(prev) + "\n") if prev else ""
 print(f"""You are helping test a verification effort for the open-source project g-plane/swc-plugin-vue-jsx
 (an SWC plugin, written in Rust, that transforms Vue 3 JSX/TSX into createVNode calls; ported from the official
 Babel plugin @vue/babel-plugin-jsx). You have your own scratch git worktree of the repository at:
@@ -22,6 +27,7 @@ Here is a semantic property the project is supposed to satisfy:
   STATEMENT: {p['statement']}
   QUANTIFIED OVER: {p['quantifier']['text']}
 
+{prev_text}
 YOUR TASK: produce {n} DIFFERENT, independent, realistic changes (bugs) to the project's Rust source, each of which
   (1) still compiles,
   (2) keeps ALL 81 existing fixture tests passing unchanged (do not edit tests or fixtures), and
